@@ -367,6 +367,15 @@ Theorem skipping_queued_rows_refuted :
 Proof. exact shared_insert_refuted_for_append_new. Qed.
 Print Assumptions skipping_queued_rows_refuted.
 
+(* The service model extends the history model: on schedules without sharing (every push gets its loop round and its answer
+   before the next one arrives; resets and evictions anywhere) its cache, stored rows and acknowledged samples are those of
+   SeriesIndex.run on the Push / CacheReset / CacheEvict history - the histories the correspondence ran before round 6. *)
+Theorem insert_service_model_without_sharing_is_the_history_model : forall h,
+  forallb one_at_a_time h = true ->
+  sview (srun append_all sinit (flat_map unshared h)) = run init h.
+Proof. exact service_model_without_sharing_is_history_model. Qed.
+Print Assumptions insert_service_model_without_sharing_is_the_history_model.
+
 (* The rule the code places the mid-request flushes with (model/FlushRule.v: len(message) + 26 per entry, 14 + len(labels text)
    per announced row, a chunk is sent when the sum exceeds 1 MiB, the rest when the body ends; tied to the real parser on bodies
    with lines of chosen lengths) is one of the behaviours the history theorems cover; on its own terms: for EVERY body and
